@@ -1,9 +1,10 @@
 import DepsDev.Proofs.C03L3Incl
 
 /-!
-# C03 layer L3 for npm, operator `tilde`: interval membership of a prerelease candidate
+# C03 layer L3 for npm, operator `tilde`: interval membership of a prerelease candidate (operands without tag)
 
-See `C03L3Incl` for the statement (`L1PNpm`) and the proof script.
+See `C03L3Incl` for the statements and the proof script; `C03L3InclTildeP` has the tagged operands
+and the assembled `L1PNpm .tilde`.
 -/
 namespace DepsDev.Proofs.C03
 
@@ -13,12 +14,6 @@ set_option linter.unusedSimpArgs false
 set_option linter.unusedVariables false
 
 theorem l1p_full_tilde : L1PFull .tilde := by l1p_full
-theorem l1p_pre_lt_tilde : L1PPreO .tilde .lt := by l1p_pre
-theorem l1p_pre_eq_tilde : L1PPreO .tilde .eq := by l1p_pre
-theorem l1p_pre_gt_tilde : L1PPreO .tilde .gt := by l1p_pre
 theorem l1p_part_tilde : L1PPart .tilde := by l1p_part
-
-theorem l1p_npm_tilde : L1PNpm .tilde :=
-  l1p_assemble _ l1p_full_tilde (l1p_pre_assemble _ l1p_pre_lt_tilde l1p_pre_eq_tilde l1p_pre_gt_tilde) l1p_part_tilde
 
 end DepsDev.Proofs.C03
